@@ -260,6 +260,20 @@ Theorem C05_rotation_between_two_handles :
 Proof. exact rotation_between_handles. Qed.
 Print Assumptions C05_rotation_between_two_handles.
 
+(* the hypotheses of the rotation theorem are met by concrete histories in which the key is
+   DELETED resp. DISABLED after the first handle; its second clause gives the rejection *)
+Example C05_rotation_theorem_applies_after_delete_and_disable :
+  let valid := fun e (x : bytes) => N.eqb (fkey e) (last x 0) in
+  let cls := fun _ : entry => PTink in
+  let leg := fun _ : entry => false in
+  let x := [1; 0; 0; 0; 5; 41] in
+  let s := fst (run (init_state None [5; 9]) [OAddKey (Some 5) 41; OSetPrimary 5]) in
+  forall ops, In ops [[OAddKey (Some 9) 42; OSetPrimary 9; ODelete 5];
+                      [OAddKey (Some 9) 42; OSetPrimary 9; ODisable 5]] ->
+  accept valid (map (lift cls leg) (ents (smgr (fst (run s ops))))) x = None.
+Proof. exact rotation_theorem_applies_after_delete_and_disable. Qed.
+
+
 
 (* Non-vacuity: a concrete well-formed keyset (TINK id 5 primary, CRUNCHY id 5
    impossible next to it so CRUNCHY id 7, a disabled TINK key, a RAW key), a
